@@ -919,11 +919,17 @@ impl Reader {
         writer_proxy.received_heartbeat_count = heartbeat.count;
 
         // remove changes until first_sn.
+        let ackable_before_this_heartbeat = writer_proxy.all_ackable_before();
         writer_proxy.irrelevant_changes_up_to(heartbeat.first_sn);
 
+        // The topic cache, and the marker in it, is shared by all the local Readers of
+        // the topic. If another Reader has processed this same HEARTBEAT before us,
+        // then the marker does not move any more, but our DataReader still has to be
+        // notified. So we look also at our own progress.
         let marker_moved = this
           .acquire_the_topic_cache_guard()
-          .mark_reliably_received_before(writer_guid, writer_proxy.all_ackable_before());
+          .mark_reliably_received_before(writer_guid, writer_proxy.all_ackable_before())
+          || writer_proxy.all_ackable_before() > ackable_before_this_heartbeat;
         #[cfg(rustdds_verif)]
         crate::verif::sched::point("Reader.hb.after_marker");
         if marker_moved {
@@ -1077,6 +1083,7 @@ impl Reader {
       return;
     }
     let all_ackable_before;
+    let ackable_before_this_gap;
     {
       let writer_proxy = if let Some(wp) = self.matched_writer_mut(writer_guid) {
         wp
@@ -1087,6 +1094,7 @@ impl Reader {
         );
         return;
       };
+      ackable_before_this_gap = writer_proxy.all_ackable_before();
 
       // Check validity of the GAP message (Section 8.3.8.4.3)
       if gap.gap_start <= SequenceNumber::new(0) {
@@ -1126,9 +1134,13 @@ impl Reader {
     }
 
     // Get the topic cache and mark progress
+    // The marker is shared by all the local Readers of the topic, so another Reader
+    // may have moved it already because of this same GAP. Look also at our own
+    // progress, or our DataReader is never notified.
     let marker_moved = self
       .acquire_the_topic_cache_guard()
-      .mark_reliably_received_before(writer_guid, all_ackable_before);
+      .mark_reliably_received_before(writer_guid, all_ackable_before)
+      || all_ackable_before > ackable_before_this_gap;
 
     // Receiving a GAP could make a Reliable stream.
     // E.g. we had #2, but were missing #1. Now GAP says that #1 does not exist.
